@@ -48,8 +48,11 @@ package builder
 //@ inst monotone: l: l
 //@ assigns stored(result0), storeFailed
 
+// C18: the symlink builder accepts every target text: it makes no errors of its own, it can only
+// pass on a failure of the encoder or of the store.
 //@ func data/builder.BuildUnixFSSymlink
-//@ prop C11
+//@ prop C11 C18
+//@ forbids fmt.Errorf errors.New
 //@ ensures size-is-the-stored-blocks-length: err == nil ==> result1 == blockLen(result0)
 //@ ensures any-write-failure-fails-the-build: (err == nil ==> storeFailed == old(storeFailed)) && (old(storeFailed) ==> storeFailed)
 //@ ensures error-implies-nil-link: err != nil ==> result0 == nil
@@ -99,7 +102,8 @@ package builder
 //@ assigns stored(result0.link), storeFailed, exhausted(src)
 
 //@ func data/builder.BuildUnixFSFile
-//@ prop C07
+//@ prop C07 C10
+//@ at call github.com/ipfs/boxo/chunker.FromString#1 assert the-input-is-read-only-through-the-splitter: callee_r == old(r) && callee_chunker == old(chunker)
 //@ at call data/builder.fileTreeRecursive#1 assert each-round-adds-one-level-on-top-of-the-previous-root: callee_depth == depth && len(callee_children) <= 1
 //@ ensures any-write-failure-fails-the-build: (err == nil ==> storeFailed == old(storeFailed)) && (old(storeFailed) ==> storeFailed)
 //@ ensures error-implies-nil-link: err != nil ==> result0 == nil
@@ -244,3 +248,14 @@ package builder
 //@ domain not-wrapping-itself: bc.w != bc
 //@ ensures every-write-is-forwarded-unchanged: hinput(bc.w) == ite(old(hinput(bc.w)) == "", str(p), cat(old(hinput(bc.w)), str(p)))
 //@ at return ghost hinput(bc) = ite(hinput(bc) == "", str(p), cat(hinput(bc), str(p)))
+
+// C02 / C08: every shard block carries its bitmap in the UnixFS Data field, also when no bucket is
+// occupied (the reader refuses a shard without it).
+//@ func data/builder.Data
+//@ prop C02
+//@ at return ghost hasData(b) = true
+//@ ensures data-field-is-set: hasData(b)
+//@ func (*data/builder.shard).serialize$1
+//@ prop C02 C08
+//@ may_panic
+//@ ensures shard-block-carries-its-bitmap: hasData(b)
